@@ -22,22 +22,38 @@ def check_history(rng, res, mode, mem_kb, nunits, limit, torn=True, prop="C01"):
         trace = h.trace
         pts = crash_points(trace, rng, limit)
         jobs = []
+        # a checkpoint writes its dirty pages in map-iteration order (FlushAllDirtyPages ranges over the page table):
+        # every subset of that batch of page writes is a prefix of some legal order, so besides the recorded prefixes
+        # the images "batch start + one later page of the batch alone" are crash states too
+        for q, e in enumerate(trace):
+            if e[0] == "M" and e[1] == "CKPT" and pts and q > pts[0]:
+                b = q
+                while b > 0 and trace[b - 1][0] in ("P", "L"):
+                    b -= 1
+                pw = [i for i in range(b, q) if trace[i][0] == "P"]
+                # the log flushes between the page writes of a checkpoint carry nothing new (no transaction runs meanwhile)
+                if len(pw) >= 2 and b >= pts[0] and all(len(trace[i][1]) == 0 for i in range(pw[0], q) if trace[i][0] == "L"):
+                    for j in (pw[1:] if len(pw) <= 10 else rng.sample(pw[1:], 8)):
+                        jobs.append((pw[0], None, j))
+                        res.extra["reordered_checkpoint_images"] = res.extra.get("reordered_checkpoint_images", 0) + 1
         for p in pts:
-            jobs.append((p, None))
+            jobs.append((p, None, None))
             if torn and p < len(trace) and trace[p][0] in ("L", "P") and rng.random() < 0.35:
                 n = len(trace[p][-1])
                 if trace[p][0] == "L":
                     cut = rng.choice([1, 7, 13, 20, 21, n // 2, n - 1]) if n > 21 else max(1, n - 1)
                 else:
                     cut = rng.choice([512, 2048, 3584])
-                jobs.append((p, min(cut, n - 1)))
+                jobs.append((p, min(cut, n - 1), None))
 
         model_inputs = []
 
         def one(job):
-            p, cut = job
+            p, cut, extra = job
             img = image_at(trace, p, torn=cut)
-            want_model = cut is None and (p % 3 == 0)
+            if extra is not None:
+                img.apply(trace[extra])
+            want_model = cut is None and extra is None and (p % 3 == 0)
             out = restart_on(img, TABLES, mem_kb=max(mem_kb, 400), want_trace=want_model)
             if want_model:
                 import shutil
@@ -66,17 +82,18 @@ def check_history(rng, res, mode, mem_kb, nunits, limit, torn=True, prop="C01"):
                         res.extra["model_images_wf"] = res.extra.get("model_images_wf", 0) + 1
                         if not parts[2].strip().endswith("committed-vs-engine:") and len(res.oracle_failures) < 5:
                             res.oracle_failures.append((render_replay(h, job[0], None), "recovered slots differ from the committed state (theorem recovery_restores_committed_state applies: image_wf holds): " + parts[2][:400]))
-        for (p, cut), out in results:
+        for (p, cut, extra), out in results:
             allowed, nret = allowed_at(trace, p, order)
             if cut is not None and p < len(trace):
                 # a torn final write may or may not complete a commit that is in progress
                 allowed2, _ = allowed_at(trace, p + 1, order)
                 allowed |= allowed2
             nio = sum(1 for e in trace[:p] if e[0] != "M")
-            where = "crash after %d of %d I/O events%s (%d commits had returned)" % (nio, sum(1 for e in trace if e[0] != "M"), "" if cut is None else ", next write torn after %d bytes" % cut, nret)
+            where = "crash after %d of %d I/O events%s%s (%d commits had returned)" % (nio, sum(1 for e in trace if e[0] != "M"), "" if cut is None else ", next write torn after %d bytes" % cut,
+                                                                                      "" if extra is None else " plus, of the checkpoint's batch of page writes that follows, only the write of page %d (the batch is written in map order)" % trace[extra][1], nret)
             logrec = sum(1 for e in trace[:p] if e[0] == "L")
             nontriv = nret >= 1 and any(e[0] == "P" for e in trace[:p])
-            res.note_case("%s|%s|%d|%s" % (" ".join(h.desc), mem_kb, p, cut), nontriv)
+            res.note_case("%s|%s|%d|%s|%s" % (" ".join(h.desc), mem_kb, p, cut, extra), nontriv)
             bad = None
             if out["status"] != "ok":
                 bad = "restart fails: %s" % out.get("detail", out["status"])
@@ -93,7 +110,7 @@ def check_history(rng, res, mode, mem_kb, nunits, limit, torn=True, prop="C01"):
                     # known finding F-TORN-PAGE: a page write torn at sector granularity is not repaired (no full-page images / double write)
                     res.known_hits["F-TORN-PAGE"] = "a data-page write torn at a 512-byte boundary leaves the page corrupt after restart (e.g. %s)" % where
                 elif len(fails) < 3:
-                    fails.append((render_replay(h, p, cut), where + ": " + bad))
+                    fails.append((render_replay(h, p, cut, extra), where + ": " + bad))
         res.extra["images"] = res.extra.get("images", 0) + len(jobs)
         res.extra["histories"] = res.extra.get("histories", 0) + 1
         if len(res.samples) < 3:
@@ -103,15 +120,67 @@ def check_history(rng, res, mode, mem_kb, nunits, limit, torn=True, prop="C01"):
     return fails
 
 
-def render_replay(h, p, cut):
-    return ("# history (commands sent to `verifharness db`), then crash at trace position %d (torn=%s), then restart\n" % (p, cut)
-            + "\n".join(h.db.log) + "\n# crash-point %d %s\n" % (p, cut))
+def render_replay(h, p, cut, extra=None):
+    return ("# history (commands sent to `verifharness db`), then crash at trace position %d (torn=%s%s), then restart\n" % (p, cut, "" if extra is None else ", plus trace event %d alone" % extra)
+            + "\n".join(h.db.log) + "\n# crash-point %d %s%s\n" % (p, cut, "" if extra is None else " %d" % extra))
+
+
+def big_txn_history(res, rng, nrows):
+    """one transaction whose log records exceed the log buffer (LogBufferSize), so that AppendLogRecord flushes and swaps
+    buffers in the middle of it; then a small committed transaction; crash at every I/O boundary after the big commit."""
+    from dbsession import DB
+    import os
+    db = DB(mem_kb=8000)
+    fails = []
+    try:
+        if not db.open().startswith("ok"):
+            return [("open", "database does not start")]
+        db.cmd("mktable ta k:i:n,g:i:n,v:s:n"); db.cmd("mktable tb k:i:n,g:i:n,v:s:n")
+        db.cmd("mark SETUP-DONE")
+        db.cmd("begin x")
+        want = []
+        for i in range(nrows):
+            v = pad(230 + i % 20, i)
+            r = db.cmd("tsql x INSERT INTO ta(k,g,v) VALUES (%d, %d, '%s');" % (i, i % 7, v))
+            if not r.startswith("ok"):
+                return [("\n".join(l[:120] for l in db.log[-5:]), "insert number %d of the big transaction failed: %s" % (i, r))]
+            want.append("i:%d,i:%d,s:%s" % (i, i % 7, v.encode().hex()))
+        db.cmd("mark B 1"); db.cmd("commit x"); db.cmd("mark E 1 ok")
+        db.cmd("mark B 2"); db.sql("INSERT INTO tb(k,g,v) VALUES (1, 1, 'z');"); db.cmd("mark E 2 ok")
+        tp = os.path.join(db.dir, "big.trace")
+        db.cmd("trace " + tp)
+        trace = load_trace(tp)
+        e1 = next(i for i, e in enumerate(trace) if e[0] == "M" and e[1] == "E 1 ok")
+        e2 = next(i for i, e in enumerate(trace) if e[0] == "M" and e[1] == "E 2 ok")
+        pts = [p for p in range(e1, len(trace) + 1) if p == len(trace) or trace[p][0] != "M"]
+        want_a = "ok:" + ";".join(sorted(want))
+        nlog = sum(len(e[1]) for e in trace[:e1] if e[0] == "L")
+        res.extra["big_txn_log_bytes"] = nlog
+
+        def one(p):
+            return p, restart_on(image_at(trace, p), ["ta", "tb"], mem_kb=8000, timeout=120)
+        for p, out in parallel(one, pts[:12]):
+            res.note_case("bigtxn|%d|%d" % (nrows, p), True)
+            where = "transaction of %d inserts (%d bytes of log, log buffer %s), crash after %d I/O events" % (nrows, nlog, "LogBufferSize", sum(1 for e in trace[:p] if e[0] != "M"))
+            bad = None
+            if out["status"] != "ok":
+                bad = "restart fails: %s" % out.get("detail", out["status"])
+            elif out["rows"]["ta"] != want_a:
+                bad = "committed rows lost: table ta has %d rows after restart, the committed transaction inserted %d" % (len(out["rows"]["ta"].split(";")) if out["rows"]["ta"] != "ok:" else 0, nrows)
+            elif p > e2 and out["rows"]["tb"] != "ok:i:1,i:1,s:7a":
+                bad = "the second committed transaction is lost: tb = %s" % out["rows"]["tb"][:80]
+            if bad and len(fails) < 2:
+                fails.append(("# verifharness db session: mktable ta k:i:n,g:i:n,v:s:n; begin x; %d x tsql x INSERT INTO ta(k,g,v) VALUES (i, i%%7, 'v<i>_xxx..' (230-249 bytes)); commit x; INSERT INTO tb; crash at trace position %d\n# crash-point %d None" % (nrows, p, p), where + ": " + bad))
+    finally:
+        db.destroy()
+    return fails
 
 
 def run(res, replay=None, mode="c01"):
     res.rule = ("serial histories of 6-14 units on two SQL-created tables (auto-commit INSERT/UPDATE/DELETE incl. growing updates that relocate rows, explicit transactions that commit or abort, "
                 "forced checkpoints, one transaction left in flight), buffer pools from 45 frames (forcing evictions) to 300; the recorded I/O trace is cut at every I/O boundary after set-up "
                 "(all boundaries next to commit markers plus a seeded sample when there are many), a third of the crash points additionally with the next write torn; each image is restarted in a fresh process; "
+                "checkpoint batches (written in map order) additionally with one later page of the batch alone; one transaction larger than the log buffer (2,300 / 7,000 wide inserts); "
                 "non-trivial = distinct (history, crash point) with >= 1 returned commit and >= 1 page write before the crash")
     res.trusted = COMMON_TRUSTED + ["hook H1 (I/O trace recorder around the disk manager) and the python image materialiser (lib/crashlib.py)",
                                     "a completed WriteLog/WritePage is taken as durable (the engine syncs the log file; it never syncs the data file)"]
@@ -121,6 +190,10 @@ def run(res, replay=None, mode="c01"):
         return
     rng = random.Random(res.seed)
     nh = 10 if res.tier == "quick" else 80
+    if mode == "c01":
+        for d, w in big_txn_history(res, rng, 2300 if res.tier == "quick" else 7000):
+            if len(res.oracle_failures) < 5:
+                res.oracle_failures.append((d, w))
     for i in range(nh):
         mem = rng.choice([180, 240, 400, 1200])
         md = ["small", "big", "big", "aborts"][i % 4] if mode == "c01" else ["aborts", "big", "aborts", "small"][i % 4]
